@@ -441,7 +441,7 @@ func finishCheck(o CheckOpts, w *World, reports []*OblReport, fnReports []FnRepo
 	fmt.Printf("govc: property %s: %d obligations, %d discharged, %d known findings, %d violations, %d canaries refuted, %.1fs\n",
 		o.Prop, obligations, discharged, len(knownSeen), len(violations), countCanaries(reports)["refuted"], time.Since(start).Seconds())
 	for _, u := range unsupported {
-		fmt.Printf("govc: note: %s\n", u)
+		fmt.Printf("govc: note (STALE-OR-UNSUPPORTED): %s\n", u)
 	}
 	if os.Getenv("GOVC_SLOW") != "" {
 		for _, r := range reports {
